@@ -20,6 +20,43 @@ type fdstr struct {
 	tab []string
 }
 
+// ropestr is a concatenation of string values (string, *symstr, *fdstr) that is
+// kept unflattened so that building text out of symbolic pieces does not fork.
+type ropestr struct {
+	parts []value
+}
+
+func mkRope(x, y value) value {
+	var parts []value
+	add := func(v value) {
+		if r, ok := v.(*ropestr); ok {
+			parts = append(parts, r.parts...)
+			return
+		}
+		if s, ok := v.(string); ok {
+			if s == "" {
+				return
+			}
+			if n := len(parts); n > 0 {
+				if p, ok := parts[n-1].(string); ok {
+					parts[n-1] = p + s
+					return
+				}
+			}
+		}
+		parts = append(parts, v)
+	}
+	add(x)
+	add(y)
+	if len(parts) == 1 {
+		return parts[0]
+	}
+	if len(parts) > 4096 {
+		panic(pathAbort{"unsupported", "rope too long"})
+	}
+	return &ropestr{parts: parts}
+}
+
 // mkStr normalises a byte vector to string (all concrete) or *symstr.
 func mkStr(b []value) value {
 	conc := true
@@ -52,13 +89,19 @@ func (i *interpreter) strBytes(v value) []value {
 		return s.b
 	case *fdstr:
 		return i.strBytes(i.fdConc(s))
+	case *ropestr:
+		var out []value
+		for _, p := range s.parts {
+			out = append(out, i.strBytes(p)...)
+		}
+		return out
 	}
 	panic(fmt.Sprintf("strBytes(%T)", v))
 }
 
 func isStr(v value) bool {
 	switch v.(type) {
-	case string, *symstr, *fdstr:
+	case string, *symstr, *fdstr, *ropestr:
 		return true
 	}
 	return false
@@ -101,16 +144,61 @@ func (i *interpreter) fdPred(s *fdstr, f func(string) bool) value {
 
 // fdInt returns the integer term f(tab[sel]).
 func (i *interpreter) fdInt(s *fdstr, f func(string) int64) value {
-	var acc *Term
-	for k := len(s.tab) - 1; k >= 0; k-- {
-		c := i.ts.Const(64, uint64(f(s.tab[k])))
-		if acc == nil {
-			acc = c
+	vals := make([]int64, len(s.tab))
+	for k, r := range s.tab {
+		vals[k] = f(r)
+	}
+	return lower(types.Int, i.selectInt(s.sel, vals))
+}
+
+// rowSet returns the condition "sel is one of rows" as a disjunction of ranges.
+func (i *interpreter) rowSet(sel *Term, rows []int) *Term {
+	ts := i.ts
+	acc := ts.Bool(false)
+	for k := 0; k < len(rows); {
+		j := k
+		for j+1 < len(rows) && rows[j+1] == rows[j]+1 {
+			j++
+		}
+		lo, hi := uint64(rows[k]), uint64(rows[j])
+		if lo == hi {
+			acc = ts.Or(acc, ts.Cmp(OpEq, sel, ts.Const(sel.w, lo)))
 		} else {
-			acc = i.ts.Ite(i.ts.Cmp(OpEq, s.sel, i.ts.Const(16, uint64(k))), c, acc)
+			acc = ts.Or(acc, ts.And(ts.Cmp(OpUle, ts.Const(sel.w, lo), sel), ts.Cmp(OpUle, sel, ts.Const(sel.w, hi))))
+		}
+		k = j + 1
+	}
+	return acc
+}
+
+// selectInt builds vals[sel] as a 64-bit term with one ite per distinct value.
+func (i *interpreter) selectInt(sel *Term, vals []int64) *Term {
+	groups := map[int64][]int{}
+	var order []int64
+	for k, v := range vals {
+		if _, ok := groups[v]; !ok {
+			order = append(order, v)
+		}
+		groups[v] = append(groups[v], k)
+	}
+	// largest group last (becomes the default leaf)
+	best := 0
+	for k, v := range order {
+		if len(groups[v]) > len(groups[order[best]]) {
+			best = k
 		}
 	}
-	return lower(types.Int, acc)
+	order[best], order[len(order)-1] = order[len(order)-1], order[best]
+	var acc *Term
+	for k := len(order) - 1; k >= 0; k-- {
+		c := i.ts.Const(64, uint64(order[k]))
+		if acc == nil {
+			acc = c
+			continue
+		}
+		acc = i.ts.Ite(i.rowSet(sel, groups[order[k]]), c, acc)
+	}
+	return acc
 }
 
 func (i *interpreter) strLen(v value) value {
@@ -121,12 +209,24 @@ func (i *interpreter) strLen(v value) value {
 		return len(s.b)
 	case *fdstr:
 		return i.fdInt(s, func(r string) int64 { return int64(len(r)) })
+	case *ropestr:
+		var acc value = 0
+		for _, p := range s.parts {
+			acc = i.binop(tokenADD, nil, acc, i.strLen(p))
+		}
+		return acc
 	}
 	panic(fmt.Sprintf("strLen(%T)", v))
 }
 
 // strEq returns x == y as bool or sym.
 func (i *interpreter) strEq(x, y value) value {
+	if r, ok := x.(*ropestr); ok {
+		x = mkStr(i.strBytes(r))
+	}
+	if r, ok := y.(*ropestr); ok {
+		y = mkStr(i.strBytes(r))
+	}
 	if fx, ok := x.(*fdstr); ok {
 		if fy, ok := y.(*fdstr); ok {
 			if fx.sel == fy.sel {
@@ -240,11 +340,50 @@ func (i *interpreter) strConcat(x, y value) value {
 			return fdMap(fy, func(r string) string { return xs + r })
 		}
 	}
-	bx, by := i.strBytes(x), i.strBytes(y)
-	out := make([]value, 0, len(bx)+len(by))
-	out = append(out, bx...)
-	out = append(out, by...)
-	return mkStr(out)
+	if fx, ok := x.(*fdstr); ok {
+		if fy, ok := y.(*fdstr); ok {
+			if r := i.fdConcat(fx, fy); r != nil {
+				return r
+			}
+		}
+	}
+	_, xs := x.(*symstr)
+	_, ys := y.(*symstr)
+	_, xc := x.(string)
+	_, yc := y.(string)
+	if (xs || xc) && (ys || yc) {
+		bx, by := i.strBytes(x), i.strBytes(y)
+		out := make([]value, 0, len(bx)+len(by))
+		out = append(out, bx...)
+		out = append(out, by...)
+		return mkStr(out)
+	}
+	return mkRope(x, y)
+}
+
+// fdConcat concatenates two finite-domain strings: row-wise for a shared
+// selector, as a product table (combined selector) otherwise.
+func (i *interpreter) fdConcat(fx, fy *fdstr) value {
+	if fx.sel == fy.sel && len(fx.tab) == len(fy.tab) {
+		tab := make([]string, len(fx.tab))
+		for k := range tab {
+			tab[k] = fx.tab[k] + fy.tab[k]
+		}
+		return &fdstr{sel: fx.sel, tab: tab}
+	}
+	n1, n2 := len(fx.tab), len(fy.tab)
+	if n1*n2 > 4096 {
+		return nil
+	}
+	tab := make([]string, 0, n1*n2)
+	for _, a := range fx.tab {
+		for _, b := range fy.tab {
+			tab = append(tab, a+b)
+		}
+	}
+	ts := i.ts
+	sel := ts.Bin(OpAdd, ts.Bin(OpMul, fx.sel, ts.Const(16, uint64(n2))), fy.sel)
+	return &fdstr{sel: sel, tab: tab}
 }
 
 // strIndex returns s[idx] with bounds check.
@@ -472,6 +611,12 @@ func (i *interpreter) showString(v value) string {
 			return s.tab[k]
 		}
 		return "<fd?>"
+	case *ropestr:
+		var sb strings.Builder
+		for _, p := range s.parts {
+			sb.WriteString(i.showString(p))
+		}
+		return sb.String()
 	}
 	return fmt.Sprintf("<%T>", v)
 }
@@ -493,6 +638,12 @@ func (i *interpreter) concString(v value) string {
 			}
 		}
 		return string(bs)
+	case *ropestr:
+		out := ""
+		for _, p := range s.parts {
+			out += i.concString(p)
+		}
+		return out
 	}
 	panic(fmt.Sprintf("concString(%T)", v))
 }
